@@ -37,6 +37,8 @@ var (
 	prodMethods = [][]MAtom{
 		nil, {mStarAtom}, {mv("PUT")}, {mv("put")}, {mv("patch")}, {mv("PATCH"), mv("DELETE")}, {mStarAtom, mv("PUT")},
 		{msafe("GET")}, {mv("OPTIONS")}, {mv("CHICKEN")}, {mv("OPTIONS-LIST"), mv("putx")},
+		// byte-case variants of methods that browsers do NOT normalise are different methods (lesson of seeded change C02-kb)
+		{mv("patch"), mv("PATCH"), mv("DELETE"), mv("Chicken"), mv("CHICKEN")},
 	}
 	prodReqHdrs = [][]HAtom{
 		nil, {hStarAtom}, {hStarAtom, hauth("Authorization")}, {hauth("Authorization"), hStarAtom}, {hauth("AUTHORIZATION")},
@@ -103,7 +105,7 @@ var (
 		{Scheme: "https", Host: "localhost"},
 		{Scheme: "connector", Host: "localhost", Port: 3000},
 	}
-	c02Methods     = []string{"GET", "HEAD", "POST", "PUT", "put", "Put", "patch", "PATCH", "DELETE", "delete", "OPTIONS", "CHICKEN", "chicken", "get", "OPTIONS-LIST", "putx"}
+	c02Methods     = []string{"GET", "HEAD", "POST", "PUT", "put", "Put", "patch", "PATCH", "DELETE", "delete", "OPTIONS", "CHICKEN", "chicken", "Chicken", "Patch", "get", "OPTIONS-LIST", "putx"}
 	c02HeaderNames = []string{"authorization", "content-type", "x-listed-1", "x-listed-2", "x-unlisted", "accept-language"}
 )
 
